@@ -109,7 +109,7 @@ Proof.
   intros e s e' Hr H; unfold reblock_if_unfair in H.
   destruct (sm_fair s); [done_refl H Hr|].
   eapply (fold_acc_sframe _ _ _ _ _ H); [exact Hr|intros x; reflexivity|].
-  intros e1 wid e2 Hr1 H1; cbv beta iota in H1.
+  intros e1 wid e2 Hr1 H1; unfold reblock_step in H1; cbv beta iota in H1.
   destruct (get_waiter s wid) as [w|]; [|discriminate].
   dm H1; [|done_refl H1 Hr1].
   eapply e_block_sframe; eauto.
